@@ -9,7 +9,7 @@ use std::{
 
 use crate::{
   prelude::*,
-  rc::{MutArc, MutRc},
+  rc::{MutArc, MutRc, RcDeref},
 };
 
 #[derive(Clone)]
@@ -143,7 +143,7 @@ macro_rules! impl_observer {
 
       #[inline]
       fn is_finished(&self) -> bool {
-        false
+        self.0.notifier_is_finished()
       }
     }
   };
@@ -167,6 +167,11 @@ impl<O> ShareObserver<O> {
   fn stop_skipping(&self) {
     self.skip.set(false)
   }
+  // the notifier has nothing left to do once the gate is open or the main
+  // observer is gone
+  fn notifier_is_finished(&self) -> bool {
+    !self.is_skipping() || self.observer.rc_deref().is_none()
+  }
 }
 
 impl<O> ShareObserverThreads<O> {
@@ -187,6 +192,9 @@ impl<O> ShareObserverThreads<O> {
     #[cfg(feature = "verif_hooks")]
     crate::verif::yield_point("skip_flag_store");
     self.skip.store(false, Ordering::Relaxed)
+  }
+  fn notifier_is_finished(&self) -> bool {
+    !self.is_skipping() || self.observer.rc_deref().is_none()
   }
 }
 
